@@ -303,7 +303,15 @@ def _dev_subsets() -> List[Tuple[str, ...]]:
     for k in range(1, 5):
         for c in itertools.combinations(order, k):
             out.append(tuple(DEVS[i] for i in sorted(c)))
-    return out
+    # deviations repaired in /repo are no longer admissible explanations (CookieStoreTrace!StillPresent)
+    return [t for t in out if all(d in STILL_PRESENT for d in t)]
+
+
+STILL_PRESENT = {"pathAlias"}
+
+
+def _unused() -> list:
+    return []
 
 
 DEV_SUBSETS = _dev_subsets()
